@@ -129,7 +129,8 @@ class Tlc:
         self.coverage = {}
         self.finished = False
 
-_uniq = [0]
+import itertools, threading
+_uniq = itertools.count(1)
 
 def tlc(module, cfg, workers=None, env=None, timeout=1100, simulate=None, depth=None, extra=(), xmx='6g', seedv=None, deadlock=False, coverage=False, cont=False):
     """Run TLC on spec/<module>.tla with spec/<cfg>. Returns a Tlc result."""
@@ -158,8 +159,7 @@ def tlc(module, cfg, workers=None, env=None, timeout=1100, simulate=None, depth=
                 return r
             except ValueError:
                 pass
-    _uniq[0] += 1
-    meta = ensure(os.path.join(WORK, 'tlc', '%d-%d-%s' % (os.getpid(), _uniq[0], module)))
+    meta = ensure(os.path.join(WORK, 'tlc', '%d-%d-%s' % (os.getpid(), next(_uniq), module)))
     cmd = ['java', '-XX:+UseParallelGC', '-Xmx' + xmx, '-Xss16m',
            '-cp', '/opt/veriftools/tla/tla2tools.jar:/opt/veriftools/tla/CommunityModules-deps.jar', 'tlc2.TLC',
            '-metadir', meta, '-noGenerateSpecTE', '-config', cfg, '-workers', str(workers or NCPU)]
@@ -342,7 +342,11 @@ class Report:
         self.cov['transitions'] += r.generated
         self.cov['tlc_runs'].append(dict(run=name, what=what, generated=r.generated, distinct=r.distinct, wall_s=round(r.wall, 1), rc=r.rc))
         if r.errors or (r.rc not in (0,) and not r.violations):
-            self.broken.append('TLC run %s failed (rc=%s): %s' % (name, r.rc, tail(r.out)))
+            m = re.search(r'(Error: .{0,1500})', r.out, re.S)
+            logp = os.path.join(ensure(os.path.join(WORK, 'logs')), re.sub(r'[^A-Za-z0-9_.-]', '_', name) + '.log')
+            with open(logp, 'w') as f:
+                f.write(r.out)
+            self.broken.append('TLC run %s failed (rc=%s), full output in %s: %s' % (name, r.rc, logp, (m.group(1) if m else tail(r.out))[:1500]))
 
     def sample(self, x, cap=6):
         if len(self.cov['samples']) < cap:
